@@ -2350,13 +2350,18 @@ vbi_decode_teletext(vbi_decoder *vbi, uint8_t *buffer)
 		cvtp->pgno = pgno;
 		vbi->vt.current = rvtp;
 
-		subpage = vbi_unham16p (p + 2) + vbi_unham16p (p + 4) * 256;
+		/* Both halves must be checked: the sum of a (small negative)
+		   error value and a positive upper half is positive again. */
+		subpage = vbi_unham16p (p + 2);
+		i = vbi_unham16p (p + 4);
 		flags = vbi_unham16p (p + 6);
 
-		if (page == 0xFF || (subpage | flags) < 0) {
+		if (page == 0xFF || (subpage | i | flags) < 0) {
 			cvtp->function = PAGE_FUNCTION_DISCARD;
 			return FALSE;
 		}
+
+		subpage += i * 256;
 
 		cvtp->subno = subpage & 0x3F7F;
 		cvtp->national = vbi_rev8 (flags) & 7;
